@@ -2,9 +2,11 @@
 private worktree path /tmp/seed-<ID> and environment facts; nothing from /verif."""
 import sys, json, os
 pid=sys.argv[1]
+rnd=int(sys.argv[sys.argv.index("--round")+1]) if "--round" in sys.argv else 1
+work=f"/tmp/seed-{pid}-work" + ("" if rnd == 1 else str(rnd))
 _p=[json.loads(l) for l in open(os.path.join(os.path.dirname(os.path.dirname(os.path.abspath(__file__))),'properties.jsonl')) if json.loads(l)['id']==pid][0]
 prop=f"{_p['id']}: {_p['title']}\n\nStatement: {_p['statement']}\n\nQuantified over: {_p['quantifier']['text']}\n"
-print(f"""You are a careful adversarial engineer. The repository googleapis/gapic-generator-python (a protoc plugin that builds a schema model from protobuf descriptors and renders Jinja templates into Python GAPIC client libraries) is checked out for you as a private scratch git worktree at /tmp/seed-{pid} (work ONLY there; never touch /repo, /verif or any other directory except /tmp/seed-{pid} and a scratch directory /tmp/seed-{pid}-work that you may create).
+print(f"""You are a careful adversarial engineer. The repository googleapis/gapic-generator-python (a protoc plugin that builds a schema model from protobuf descriptors and renders Jinja templates into Python GAPIC client libraries) is checked out for you as a private scratch git worktree at /tmp/seed-{pid} (work ONLY there; never touch /repo, /verif or any other directory except /tmp/seed-{pid} and a scratch directory {work} that you may create).
 
 Here is a semantic property of this code base that is supposed to hold:
 
@@ -22,8 +24,17 @@ ENVIRONMENT FACTS (sealed sandbox, no network):
 - Emitted libraries run against the installed google-api-core / proto-plus / grpcio; a loopback `grpc.server` with a `grpc.GenericRpcHandler` on 127.0.0.1:0 or an `http.server` works for executing emitted clients (REST transport: `XRestTransport(host="127.0.0.1:PORT", url_scheme="http", credentials=google.auth.credentials.AnonymousCredentials())`).
 - Generation takes ~1 s; keep each demonstration under ~60 s.
 
-DELIVERABLES (write them under /tmp/seed-{pid}-work/):
+DELIVERABLES (write them under {work}/):
   change1.diff, change2.diff   — `git diff` output relative to the worktree HEAD, each applying cleanly with `git apply` on a clean worktree;
   demo1.py, demo2.py           — the demonstrations (each must pass on the clean worktree and fail with its change);
   notes.md                     — for each change: what it breaks, what it needs in order to manifest, how you verified (commands + observed results incl. the pytest summary line).
 Leave the worktree CLEAN at the end (`git -C /tmp/seed-{pid} checkout -- . && git -C /tmp/seed-{pid} status --short` prints nothing). Do not commit anything. In your final answer give a 10-line summary of the two changes.""")
+
+if rnd > 1:
+    sys.path.insert(0, os.path.dirname(os.path.abspath(__file__)))
+    import seedmeta
+    prior = [v[1] for k, v in sorted(seedmeta.DESC.items()) if k.startswith(pid + '-')]
+    print(f"""
+
+ROUND {rnd} - ADDITIONAL CONSTRAINTS. Other engineers already produced these changes for this property; do NOT repeat them or close variants:
+""" + "".join(f"  - {p}\n" for p in prior) + f"""Produce two changes of a DIFFERENT KIND from those and from each other. Prefer, in this order: (a) a fault that needs a multi-step history to show (state carried between calls/pages/attempts, a second instance, a cache, an order of events); (b) two cooperating edits in DIFFERENT files that each look harmless alone; (c) a fault confined to a less-travelled configuration that the property still covers (the alternative `ads-templates` set selected with the plugin options `python-gapic-templates=ads-templates,old-naming`; the REST transport; the asyncio client; numeric enums; a service YAML; a dependency-package type; proto3 optional / oneof / map fields; unusual but legal proto names); (d) an off-by-one or boundary condition (empty, zero, last element). The pandoc stub must also answer `--list-input-formats` and `--list-output-formats`. `gapic` is a namespace package: check `gapic.schema.wrappers.__file__` rather than `gapic.__file__`. Write the deliverables under {work}/ (not another directory).""")
